@@ -943,6 +943,12 @@ class GCodeBuilder(GCodeCore):
         finally:
             self.remove_hook(hook)
 
+    def _track_distance_mode(self, mode: DistanceMode) -> None:
+        """Change the tracked distance mode without writing it."""
+
+        super()._track_distance_mode(mode)
+        self.state._set_distance_mode(mode)
+
     def _prepare_move(self,
         point: Point, params: ParamsDict,
         comment: str | None = None) -> Tuple[str, ParamsDict]:
